@@ -389,6 +389,43 @@ def task_sep():
 task_sep.contract_fn = "heavy.ImmutableKnotVector.knots"
 
 
+def task_frames_kv():
+    """Immutability of ImmutableKnotVector: the invariant established by __new__ (proved by engine V) holds for the lifetime of every instance,
+    so every KnotVector reachable through any operation history is well-formed."""
+    import ast
+    from .. import env
+    out = []
+    fn = "heavy.ImmutableKnotVector (immutability)"
+    problems = []
+    for mod in ("heavy", "knotspace", "curves", "functions", "calculus", "advanced"):
+        tree = ast.parse(env.source(mod))
+        for f in [n for n in ast.walk(tree) if isinstance(n, ast.FunctionDef)]:
+            for n in ast.walk(f):
+                if isinstance(n, ast.Attribute) and n.attr in ("_ImmutableKnotVector__degree", "_ImmutableKnotVector__npts", "__degree", "__npts") \
+                        and isinstance(n.ctx, (ast.Store, ast.Del)):
+                    if not (mod == "heavy" and f.name == "__new__"):
+                        problems.append("%s.%s writes %s at L%d" % (mod, f.name, n.attr, n.lineno))
+                if isinstance(n, ast.Call) and isinstance(n.func, ast.Attribute) and n.func.attr == "__new__" and "super(" in ast.unparse(n.func) \
+                        and "ImmutableKnotVector" in ast.unparse(n.func) and not (mod == "heavy" and f.name == "__new__"):
+                    problems.append("%s.%s builds an instance without validation at L%d" % (mod, f.name, n.lineno))
+    tree = ast.parse(env.source("heavy"))
+    cls = next(c for c in tree.body if isinstance(c, ast.ClassDef) and c.name == "ImmutableKnotVector")
+    bases = [ast.unparse(b) for b in cls.bases]
+    if bases != ["tuple"]:
+        problems.append("bases are %s (expected tuple)" % bases)
+    forbidden = {"__setitem__", "__delitem__", "__iadd__", "__imul__", "__setattr__", "__init__", "__getitem__", "__iter__", "__len__", "__eq__", "__hash__"}
+    defined = {f.name for f in cls.body if isinstance(f, ast.FunctionDef)}
+    if defined & forbidden:
+        problems.append("defines %s (would break tuple immutability / element access)" % sorted(defined & forbidden))
+    out.append(ob("%s:frame" % fn, fn, FAILED if problems else PROVED, "F", "ast", 0.0,
+                  "; ".join(problems) if problems else "tuple subclass; private degree/npts are assigned only inside __new__; no other code path creates an instance; "
+                  "no mutating or element-access dunder is overridden => WF(U, degree) established by __new__ (engine V) is a lifetime invariant"))
+    return out
+
+
+task_frames_kv.contract_fn = "heavy.ImmutableKnotVector"
+
+
 def tier_shapes(tier):
     if tier == "quick":
         return spec.knot_shapes(2, 1) + [(3, (2,)), (1, (1, 2)), (2, (3, 1)), (0, (1, 1))]
@@ -399,8 +436,10 @@ def tasks(tier, seed):
     from ..pyvc.driver import verify
     from ..contracts import kv
     ts = [(verify, (c, m, q, v)) for c, m, q, v in kv.ALL]
-    from ..contracts import facade
+    from ..contracts import facade, kvnew
     ts += [(verify, (c, m, q, v)) for c, m, q, v in facade.ALL]
+    ts += [(verify, (c, m, q, v)) for c, m, q, v in kvnew.ALL]
+    ts.append((task_frames_kv, ()))
     maxlen = 6 if tier == "quick" else 8
     nch = 8 if tier == "quick" else 16
     ts += [(task_accept, (maxlen, c, nch)) for c in range(nch)]
@@ -469,11 +508,16 @@ def replay(o):
 
 INFO = dict(
     assumptions=A.S_COMMON + [A.A10], trusted_base=A.TRUSTED, min_obligations=150, level="other",
-    explanation="C03: engine V proves span search / valid / limits / degree / npts for all knot vectors of all lengths; acceptance <=> well-formedness is "
-                "decided exhaustively over all vectors up to the stated length over a 4-value alphabet (bounded stand-in, label B); queries and every "
+    explanation="C03: engine V proves, for vectors of EVERY length: the constructor accepts exactly the well-formed clamped vectors (__is_valid both degree modes, "
+                "__new__), the binary span search, valid / limits / degree / npts, ImmutableKnotVector.__add__/__sub__, and for every KnotVector mutator "
+                "(insert, remove, shift, scale, normalize, +=, -=, *=, |=, &=, internal setter) that a raising request leaves the payload object in place and a "
+                "successful one installs a well-formed payload; frame analysis shows instances are immutable and only built through __new__, which lifts "
+                "well-formedness to every reachable KnotVector over all operation histories. The same facts are ALSO decided exhaustively over all vectors up "
+                "to the stated length over a 4-value alphabet (engine B), queries and every "
                 "mutator (valid and invalid requests: result as specified and well-formed, or exception with the payload object untouched) with symbolic "
                 "knot values per shape; all operation sequences up to the stated depth from three start vectors (bounded); fixed table of non-numeric arguments.",
-    functions=["knotspace.KnotVector.insert/remove/shift/scale/normalize/__iadd__/__isub__/__imul__/__ior__/__iand__/internal.setter (V: atomicity and affine "
+    functions=["heavy.ImmutableKnotVector.__is_valid (V: accepted <=> well-formed, every length, both degree modes)", "heavy.ImmutableKnotVector.__new__ (V)",
+               "heavy.ImmutableKnotVector immutability (F)", "knotspace.KnotVector.insert/remove/shift/scale/normalize/__iadd__/__isub__/__imul__/__ior__/__iand__/internal.setter (V: atomicity and affine "
                "postconditions for all vectors)", "heavy.ImmutableKnotVector.__add__/__sub__ (V)", "heavy.ImmutableKnotVector.__span_single (V)", "heavy.ImmutableKnotVector.__valid_single (V)", "heavy.ImmutableKnotVector.limits/degree/npts (V)",
                "heavy.ImmutableKnotVector.__new__/__is_valid/__get_unique", "heavy.ImmutableKnotVector.__add__/__sub__/span/mult/valid/knots/split",
                "knotspace.KnotVector.insert/remove/shift/scale/normalize/convert/degree/internal/__iadd__/__isub__/__imul__/__itruediv__/__ior__/__iand__/split/copy"],
